@@ -14,7 +14,7 @@ import (
 func init() {
 	register(&propDef{
 		ID:          "C05",
-		Explanation: "The aggregation arithmetic is decided as an inductive invariant whose base (first record) and step (each later record) are recognised as dataflow shapes - every value handed to a SetUnsigned64Value/SetUnsigned32Value in the aggregation functions is rendered as a normal-form expression over (incoming element, existing element, list index) together with the branch conditions that guard it, and compared with the expected form: step: under isDelta (= strings.Contains(name, \"Delta\")) the per-node field := IN + EX, otherwise := IN and the octet-total diff := IN - EX of that node's field; throughput := (diff * 8) / uint64(incomingEnd - prevEnd) with the early return 'incomingEnd <= prevEnd' dominating the division (no division by zero); the flow's end time := IN only when IN >= EX (isLatest); every update of a COMMON field (stats and throughput) is guarded by isLatest, totals only grow, common deltas copy the reporting node's sum; prevEnd is that node's own previous end, or the INCOMING record's start on the node's first record; base: per-node stat fields seeded with the incoming value iff that node reports (else 0), throughput seeded (octetTotal * 8) / uint64(end - start) only when end > start; reset: ResetValue reaches stats fields only under isDelta and the three throughput lists; R-KEY: every field of FlowKey is assigned from the element of the matching name, the map is keyed by the FlowKey value (comparable struct of basic fields), insertions happen only in addOrUpdateRecordInMap; R-GETTER on every constant element name used in pkg/intermediate. Typed getters on constant element names are also checked through the getUnsignedNNValueByIeName helpers (name passed as a parameter). Not decided: numeric results for concrete histories, the runtime-configured element lists (names are data; only the Delta predicate and the list pairing by index are visible), overflow. If the arithmetic is rewritten in a form the normaliser does not recognise the obligation is reported as unrecognised. Later additions: every update happens under exactly the conditions named (R-VALUE.exact), tcpState follows the latest record, the (fillSrc, fillDst) pair of each call matches its branch, an accepted record is always applied (nil only after the map insertion), error returns of the step only for a missing element, the quotient is computed on uint64. Round-five additions: exactness also covers tests that decide whether an update is reached without dominating it (a continue on one arm of a compound condition).",
+		Explanation: "The aggregation arithmetic is decided as an inductive invariant whose base (first record) and step (each later record) are recognised as dataflow shapes - every value handed to a SetUnsigned64Value/SetUnsigned32Value in the aggregation functions is rendered as a normal-form expression over (incoming element, existing element, list index) together with the branch conditions that guard it, and compared with the expected form: step: under isDelta (= strings.Contains(name, \"Delta\")) the per-node field := IN + EX, otherwise := IN and the octet-total diff := IN - EX of that node's field; throughput := (diff * 8) / uint64(incomingEnd - prevEnd) with the early return 'incomingEnd <= prevEnd' dominating the division (no division by zero); the flow's end time := IN only when IN >= EX (isLatest); every update of a COMMON field (stats and throughput) is guarded by isLatest, totals only grow, common deltas copy the reporting node's sum; prevEnd is that node's own previous end, or the INCOMING record's start on the node's first record; base: per-node stat fields seeded with the incoming value iff that node reports (else 0), throughput seeded (octetTotal * 8) / uint64(end - start) only when end > start; reset: ResetValue reaches stats fields only under isDelta and the three throughput lists; R-KEY: every field of FlowKey is assigned from the element of the matching name, the map is keyed by the FlowKey value (comparable struct of basic fields), insertions happen only in addOrUpdateRecordInMap; R-GETTER on every constant element name used in pkg/intermediate. Typed getters on constant element names are also checked through the getUnsignedNNValueByIeName helpers (name passed as a parameter). Not decided: numeric results for concrete histories, the runtime-configured element lists (names are data; only the Delta predicate and the list pairing by index are visible), overflow. If the arithmetic is rewritten in a form the normaliser does not recognise the obligation is reported as unrecognised. Later additions: every update happens under exactly the conditions named (R-VALUE.exact), tcpState follows the latest record, the (fillSrc, fillDst) pair of each call matches its branch, an accepted record is always applied (nil only after the map insertion), error returns of the step only for a missing element, the quotient is computed on uint64. Round-five additions: exactness also covers tests that decide whether an update is reached without dominating it (a continue on one arm of a compound condition). Round-six additions: every element the step updates is looked up in the aggregated record by name; the previous-end helper is found by its role (the function whose result is subtracted from the incoming end time).",
 		Assume:      []string{"unsigned 64-bit arithmetic does not overflow for real counters", "the element lists passed by the user pair up by index (checked by InitAggregationProcess)"},
 		Run:         runC05,
 	})
@@ -52,6 +52,24 @@ func runC05(p *Prog, r *Report, tier string) {
 	}
 	common := "elem($existingRecord, AggregationProcess.aggregateElements.StatsElements[i])"
 	sites := setSites(p, agg, "SetUnsigned64Value")
+	// the helper that yields the node's previous end time: the repository function whose result is subtracted from the
+	// incoming record's flowEndSeconds in aggregateRecords (found by its role, not by its name)
+	var prevEndFn *ssa.Function
+	eachInstr(agg, func(in ssa.Instruction) {
+		sub, ok := in.(*ssa.BinOp)
+		if !ok || sub.Op != token.SUB || p.nf(sub.X) != `GetUnsigned32Value(elem($incomingRecord, "flowEndSeconds"))` {
+			return
+		}
+		for _, lf := range phiLeaves(sub.Y, 6) {
+			if cl, ok := lf.(*ssa.Call); ok && cl.Call.StaticCallee() != nil && keyInPkg(fnKey(cl.Call.StaticCallee()), "pkg/intermediate") {
+				prevEndFn = cl.Call.StaticCallee()
+			}
+		}
+	})
+	prevEndName := "updateFlowEndSecondsFromNodes"
+	if prevEndFn != nil {
+		prevEndName = prevEndFn.Name()
+	}
 	r.Facts["aggregateRecords.SetUnsigned64Value"] = func() []string {
 		var s []string
 		for _, x := range sites {
@@ -59,6 +77,15 @@ func runC05(p *Prog, r *Report, tier string) {
 		}
 		return s
 	}()
+	// every element of the aggregated record that the step updates was looked up in THAT record by name: the position of a
+	// field in the incoming record says nothing about the aggregated record (templates may order fields differently)
+	for _, grp := range [][]setSite{sites, setSites(p, agg, "SetUnsigned32Value"), setSites(p, agg, "SetStringValue")} {
+		for i := range grp {
+			st := &grp[i]
+			r.Check(strings.HasPrefix(st.recv, "elem($existingRecord, "), "R-VALUE.by-name", "aggregateRecords: updated element "+st.recv, p.instrPos(st.in),
+				"existingRecord.GetInfoElementWithValue(<name>)", "the element that is updated is not obtained from the aggregated record by name (positional access, or an element of another record): with differently ordered templates another field is overwritten", true)
+		}
+	}
 	// ---- per-node stats
 	for _, side := range []string{"Source", "Destination"} {
 		fill := map[string]string{"Source": "$fillSrcStats", "Destination": "$fillDstStats"}[side]
@@ -167,7 +194,7 @@ func runC05(p *Prog, r *Report, tier string) {
 			okNum = false
 			num += " [computed in " + b.X.Type().String() + ", not uint64]"
 		}
-		okDen := strings.HasPrefix(den, "conv(") && strings.Contains(den, "("+inEnd+" - ") && strings.Contains(den, "updateFlowEndSecondsFromNodes(")
+		okDen := strings.HasPrefix(den, "conv(") && strings.Contains(den, "("+inEnd+" - ") && strings.Contains(den, prevEndName+"(")
 		// division guarded: the diff is computed on the edge incomingEnd > prevEnd
 		guarded := false
 		eachInstr(agg, func(x ssa.Instruction) {
@@ -297,7 +324,7 @@ func runC05(p *Prog, r *Report, tier string) {
 			if c.IsInvoke() && strings.HasPrefix(c.Method.Name(), "Set") && isValueAccessor(c.Method.Name()) {
 				firstMut = in
 			}
-			if c.StaticCallee() != nil && c.StaticCallee().Name() == "updateFlowEndSecondsFromNodes" {
+			if c.StaticCallee() != nil && c.StaticCallee().Name() == prevEndName {
 				firstMut = in
 			}
 		}
@@ -360,16 +387,32 @@ func runC05(p *Prog, r *Report, tier string) {
 			"an additional early 'return nil' skips part of the aggregation (e.g. the throughput update when the octet totals did not move, which must become 0): facts "+strings.Join(facts, " && "), true)
 	})
 	// ---- prevEnd helper
-	if u := p.Fn("(*pkg/intermediate.AggregationProcess).updateFlowEndSecondsFromNodes"); u == nil {
+	if u := prevEndFn; u == nil {
 		r.Undecided("R-VALUE.prev-end", "anchor: updateFlowEndSecondsFromNodes", "pkg/intermediate/aggregate.go", "not found")
 	} else {
 		okStart, okSet, okRet := false, false, false
+		// parameter roles from a call site: the incoming record and the incoming end value
+		var parIn, parVal ssa.Value
+		eachInstr(agg, func(in ssa.Instruction) {
+			cl := callOf(in)
+			if cl == nil || cl.StaticCallee() != u || len(cl.Args) != len(u.Params) {
+				return
+			}
+			for i, a := range cl.Args {
+				if pa, ok := a.(*ssa.Parameter); ok && pa.Name() == "incomingRecord" {
+					parIn = u.Params[i]
+				}
+				if p.nf(a) == `GetUnsigned32Value(elem($incomingRecord, "flowEndSeconds"))` {
+					parVal = u.Params[i]
+				}
+			}
+		})
 		eachInstr(u, func(in ssa.Instruction) {
 			switch x := in.(type) {
 			case *ssa.Call:
 				if x.Call.IsInvoke() && x.Call.Method.Name() == "GetInfoElementWithValue" {
 					if n, ok := constString(x.Call.Args[0]); ok && n == "flowStartSeconds" {
-						okStart = x.Call.Value == ssa.Value(u.Params[1])
+						okStart = parIn != nil && x.Call.Value == parIn
 						zero := false
 						for _, f := range blockFacts(in.Block()) {
 							if z, ok := constInt(f.Y); ok && z == 0 && f.Op.String() == "==" && strings.HasPrefix(p.nf(f.X), "GetUnsigned32Value(elem($existingRecord") {
@@ -380,7 +423,7 @@ func runC05(p *Prog, r *Report, tier string) {
 					}
 				}
 				if x.Call.IsInvoke() && x.Call.Method.Name() == "SetUnsigned32Value" {
-					okSet = x.Call.Args[0] == ssa.Value(u.Params[4]) && strings.HasPrefix(p.nf(x.Call.Value), "elem($existingRecord, phi{")
+					okSet = parVal != nil && x.Call.Args[0] == parVal && strings.HasPrefix(p.nf(x.Call.Value), "elem($existingRecord, ")
 				}
 			case *ssa.Return:
 				s := p.nf(x.Results[0])
